@@ -84,7 +84,21 @@ def gen_histories(ctx, pools, n, chunk_no):
         nodes_only = rng.chance(2, 5)          # nodes only, each at most once: the literal batch exists for every remainder
         pool, infos = pools.pool(rng, lid, covered, mode == "X", big=nodes_only)
         ops = c17lib.history(rng, infos, rng.range(3, 40), raw=not nodes_only, drate=rng.choice([5, 10, 20, 30]))
-        hs.append({"lang": lid, "mode": mode, "xmlgen": xmlgen, "pool": pool, "ops": ops, "covered": covered,
+        doc = False
+        if covered and rng.chance(1, 3):
+            # document-shaped: raw start of a root element, nodes and deletions, raw end: the final output is a complete
+            # WBXML document, which the proved strict decoder (Spec.decode_lang, C04) must read back as exactly the
+            # remaining nodes
+            roots = [i for i, inf in enumerate(infos) if not inf["text"] and inf["has_kids"]]
+            elts = [i for i, inf in enumerate(infos) if not inf["text"]]
+            if roots and elts:
+                r0 = rng.choice(roots)
+                body = ["N%d" % rng.choice(elts)]
+                for _ in range(rng.range(0, 14)):
+                    body.append("D" if rng.chance(1, 4) else "N%d" % rng.choice(elts))
+                ops = ["S%d,1" % r0] + body + ["F%d,1" % r0]
+                doc = True
+        hs.append({"lang": lid, "mode": mode, "xmlgen": xmlgen, "pool": pool, "ops": ops, "covered": covered, "doc": doc,
                    "line": "flow %d %s %d %s %s" % (lid, mode, xmlgen, pool, ";".join(ops))})
     return hs
 
@@ -110,6 +124,11 @@ def run(ctx):
     harness = common.build_harness("c17_harness")
     driver = common.build_driver("C17")
     denv = common.run_env({"C18_TABLES": tfile})
+    gen.gen_tables()
+    strict_driver = common.build_driver("C04")          # `strict <lang> <hex>` = Spec.decode_lang (proved round trip, C04)
+    hl = ["header %d W 0" % l for l in c17lib.COVERED_LANGS]
+    ha, _ = common.run_lines(harness, hl, shards=1)
+    wheaders = {l: a.split(":")[1] for l, a in zip(c17lib.COVERED_LANGS, ha) if a and a.startswith("0:")}
 
     # ---- which behaviour does the C have?  (the D16 witnesses: code page in WBXML, in_content in indented XML)
     w = witness_lines(pools)
@@ -157,7 +176,8 @@ def run(ctx):
         done += n
         if not batch:
             break
-        process(ctx, batch, harness, driver, denv, fixed, model_fixed, total, kinds, nontrivial, concrete, corr, samples)
+        process(ctx, batch, harness, driver, denv, fixed, model_fixed, total, kinds, nontrivial, concrete, corr, samples,
+                strict_driver, wheaders, pools)
         if len(concrete) > 50:
             break
 
@@ -200,7 +220,46 @@ def run(ctx):
         ctx.coverage["note"] = "model/C disagreements also present: %d" % len(corr)
 
 
-def process(ctx, batch, harness, driver, denv, fixed, model_fixed, total, kinds, nontrivial, concrete, corr, samples):
+def expected_events(pools, lang, pool, frags):
+    """what the remaining fragments denote, as the strict decoder prints events (token tags, plain text only)"""
+    tags = pools.langs[lang]["tags"]
+    specs = pool.split("/")
+
+    def tname(i):
+        r = tags[i]
+        return "T.%d.%d.%s" % (r[1], r[2], r[0].encode().hex())
+
+    def node_events(toks, pos):
+        t = toks[pos]
+        if t[0] == "x":
+            return ["CH:" + t[1:]], pos + 1
+        if t[0] != "e":
+            raise ValueError(t)
+        name = tname(int(t[1:]))
+        ev = ["SE:" + name]
+        pos += 1
+        if pos < len(toks) and toks[pos] == "(":
+            pos += 1
+            while toks[pos] != ")":
+                e2, pos = node_events(toks, pos)
+                ev += e2
+            pos += 1
+        return ev + ["EE:" + name], pos
+    out = []
+    for f in frags:
+        i = int(f[1:].split(",")[0])
+        toks = specs[i].split(".")
+        if f[0] == "N":
+            out += node_events(toks, 0)[0]
+        elif f[0] == "S":
+            out.append("SE:" + tname(int(toks[0][1:])))
+        elif f[0] == "F":
+            out.append("EE:" + tname(int(toks[0][1:])))
+    return out
+
+
+def process(ctx, batch, harness, driver, denv, fixed, model_fixed, total, kinds, nontrivial, concrete, corr, samples,
+            strict_driver=None, wheaders=None, pools=None):
     lines, owner = [], []            # owner: (history index, kind, payload)
     for hi, h in enumerate(batch):
         h["lives"] = c17lib.live_prefixes(h["ops"])
@@ -241,6 +300,7 @@ def process(ctx, batch, harness, driver, denv, fixed, model_fixed, total, kinds,
             per[hi]["flow"] = a
         else:
             per[hi][kind][payload] = a
+    strict_jobs = []
     for hi, h in enumerate(batch):
         total["evaluations"] += 1
         key = "lang %d %s" % (h["lang"], h["mode"])
@@ -296,6 +356,9 @@ def process(ctx, batch, harness, driver, denv, fixed, model_fixed, total, kinds,
             total["d16_histories"] += 1
             if not isfixed:
                 known(ctx, "delete-last-keeps-code-page" if h["mode"] == "W" else "delete-last-keeps-xml-state")
+        # second oracle: the proved strict decoder reads the final output of a document-shaped history
+        if h.get("doc") and strict_driver and h["lang"] in (wheaders or {}) and flow[-1][1] == "1" and (isfixed or not d16):
+            strict_jobs.append((h, "strict %d %s%s" % (h["lang"], wheaders[h["lang"]], flow[-1][2])))
         if failed:
             concrete.append(failed)
             continue
@@ -334,3 +397,11 @@ def process(ctx, batch, harness, driver, denv, fixed, model_fixed, total, kinds,
             nontrivial.add(hash(h["line"]))
         if len(samples) < 12 and hash(h["line"]) % 11 == 0 and "D" in h["ops"]:
             samples.append({"input": h["line"][:500], "last_output_body": flow[-1][2][:120], "remaining": ";".join(h["lives"][-1][0])})
+    if strict_jobs:
+        sa, _ = common.run_lines(strict_driver, [l for _, l in strict_jobs])
+        for (h, l), a in zip(strict_jobs, sa):
+            total["strict_decoded"] = total.get("strict_decoded", 0) + 1
+            want = "ok SD:106:%d %s ED" % (h["lang"], " ".join(expected_events(pools, h["lang"], h["pool"], h["lives"][-1][0])))
+            if a != want:
+                concrete.append({"kind": "strict-decoder", "input": h["line"], "strict_input": l, "decoded": a, "expected": want,
+                                 "what": "the final flow output, read by the proved strict decoder (Spec.decode_lang), does not denote exactly the nodes that remain"})
